@@ -152,7 +152,10 @@ TypeClasses(chk, env, T, codec) ==
              "OerBitStringInAddition")
      \cup on(codec = "oer" /\ chk = "CC"
              /\ TypeHas(env, T, LAMBDA t : AdditionHas(env, t, LAMBDA u :
-                   \/ u.k = "SEQOF" /\ (u.sz.lb = u.sz.ub \/ Base(env, u.e).k \in {"ENUM", "CHOICE"})
+                   \/ u.k = "SEQOF" /\ (u.sz.lb = u.sz.ub \/ Base(env, u.e).k \in {"ENUM", "CHOICE", "SEQOF"})
+                   \* ... or a SEQUENCE with a DEFAULT component of variable size (`.length` is looked up on the wrong struct)
+                   \/ u.k = "SEQ" /\ \E j \in 1..Len(u.root) :
+                         LET b == Base(env, u.root[j].t) IN u.root[j].q = "D" /\ b.k = "OCTS" /\ b.sz.lb # b.sz.ub
                    \* ... or an inline CHOICE with an alternative of variable size (its length needs a helper / a member path that is not emitted)
                    \/ u.k = "CHOICE" /\ \E j \in 1..Len(u.root) :
                          LET b == Base(env, u.root[j].t) IN b.k = "SEQOF" \/ (b.k = "OCTS" /\ b.sz.lb # b.sz.ub))),
